@@ -44,6 +44,7 @@ type Event struct {
 	Instr  ssa.Instruction
 	Guards map[string]bool // undecided branch outcomes holding at the event (copy and ext-call events)
 	GuardL []GuardInfo
+	PathL  []GuardInfo // undecided branch outcomes in force over the whole call stack
 }
 
 type StoreEvent struct {
@@ -97,6 +98,16 @@ type Interp struct {
 	// arbitrary iteration. Run with CallFix until the set of written cells is stable.
 	LoopHavoc   bool
 	loopWritten map[*ssa.BasicBlock]map[string]bool
+	// loop-invariant cells: a cell written in a loop whose value at every back edge is
+	// the value it had on entry keeps that value at the header instead of becoming unknown
+	loopPre    map[*ssa.BasicBlock]map[string]string // header -> cell -> key of the value on entry
+	loopDiff   map[*ssa.BasicBlock]map[string]bool   // header -> cells seen with another value at a back edge
+	loopStable map[*ssa.BasicBlock]map[string]bool   // header -> cells established as invariant
+	phiPre     map[*ssa.Phi]string                   // loop-header phi -> key of the value entering the loop
+	phiInit    map[*ssa.Phi]Val
+	phiDiff    map[*ssa.Phi]bool
+	phiStable  map[*ssa.Phi]bool
+	phiSeen    map[*ssa.Phi]bool
 	loopChanged bool
 	curLoops    []*ssa.BasicBlock
 	headerObjs  map[*ssa.BasicBlock]int // number of objects existing when the loop was entered
@@ -126,6 +137,7 @@ type Interp struct {
 	gate      string // key of the branch condition controlling the merge being computed
 	gateExact bool   // the merge has exactly one live edge per side of that branch
 	gateSwap  bool   // the first merged value comes from the false side
+	curSt     *State // state of the instruction being interpreted (for event path guards)
 }
 
 func New() *Interp {
@@ -139,6 +151,7 @@ func (ip *Interp) Reset() {
 	ip.In = NewInterner()
 	ip.Ops = Ops{ip.In}
 	ip.gate = ""
+	ip.curSt = nil
 	ip.Events = ip.Events[:0]
 	ip.Stores = ip.Stores[:0]
 	ip.Imprec = nil
@@ -234,6 +247,24 @@ func (ip *Interp) PathGuards(st *State) map[string]bool {
 	return g
 }
 
+// PathGuardList is PathGuards with the comparisons' operands.
+func (ip *Interp) PathGuardList(st *State) []GuardInfo {
+	out := ip.GuardList(st)
+	if len(ip.acts) > 0 {
+		seen := map[string]bool{}
+		for _, g := range out {
+			seen[g.Key] = true
+		}
+		for _, g := range ip.acts[len(ip.acts)-1].outerL {
+			if !seen[g.Key] {
+				seen[g.Key] = true
+				out = append(out, g)
+			}
+		}
+	}
+	return out
+}
+
 // GuardListOf returns the guards recorded with an event.
 func (ip *Interp) GuardListOf(ev Event) []GuardInfo { return ev.GuardL }
 
@@ -280,6 +311,9 @@ func (ip *Interp) event(e Event) *Event {
 		e.Pos = ip.curPos
 	}
 	e.Stack = ip.stackNames()
+	if e.PathL == nil && ip.curSt != nil {
+		e.PathL = ip.PathGuardList(ip.curSt)
+	}
 	ip.Events = append(ip.Events, e)
 	return &ip.Events[len(ip.Events)-1]
 }
@@ -292,7 +326,8 @@ type activation struct {
 	// loads remembers, for values produced by a load, the heap cell they came from
 	loads map[ssa.Value]loadOrigin
 	// outer: branch outcomes in force at the call site (over all enclosing activations)
-	outer map[string]bool
+	outer  map[string]bool
+	outerL []GuardInfo
 }
 
 type loadOrigin struct {
@@ -389,8 +424,15 @@ func (ip *Interp) CallFix(fn *ssa.Function, mkArgs func() ([]Val, *State)) (Val,
 	for k, v := range ip.symObjs {
 		baseSyms[k] = v
 	}
-	for i := 0; i < 8; i++ {
+	ip.loopStable = map[*ssa.BasicBlock]map[string]bool{}
+	for i := 0; i < 12; i++ {
 		ip.Reset()
+		ip.loopPre = map[*ssa.BasicBlock]map[string]string{}
+		ip.loopDiff = map[*ssa.BasicBlock]map[string]bool{}
+		ip.phiPre, ip.phiDiff, ip.phiSeen = map[*ssa.Phi]string{}, map[*ssa.Phi]bool{}, map[*ssa.Phi]bool{}
+		if ip.phiStable == nil || i == 0 {
+			ip.phiStable = map[*ssa.Phi]bool{}
+		}
 		// identical allocation numbering in every iteration, so that cell keys are comparable
 		ip.objs = ip.objs[:baseObjs]
 		ip.symObjs = map[string]*Obj{}
@@ -401,12 +443,84 @@ func (ip *Interp) CallFix(fn *ssa.Function, mkArgs func() ([]Val, *State)) (Val,
 		ip.loopChanged = false
 		args, st := mkArgs()
 		res, out := ip.Call(fn, args, nil, st)
+		// cells that came back unchanged at every back edge are invariant; a cell once
+		// found invariant is dropped again if a later round (run under that assumption)
+		// sees it change
+		for h, w := range ip.loopWritten {
+			for k := range w {
+				_, entered := ip.loopPre[h]
+				was := ip.loopStable[h][k]
+				now := entered && !ip.loopDiff[h][k]
+				if now != was {
+					if ip.loopStable[h] == nil {
+						ip.loopStable[h] = map[string]bool{}
+					}
+					if now && !ip.loopChanged {
+						// only adopt new invariants once the written set is stable
+						ip.loopStable[h][k] = true
+						ip.loopChanged = true
+					} else if !now {
+						delete(ip.loopStable[h], k)
+						ip.loopChanged = true
+					}
+				}
+			}
+		}
+		for phi := range ip.phiSeen {
+			now := !ip.phiDiff[phi]
+			if now != ip.phiStable[phi] {
+				if now && !ip.loopChanged {
+					ip.phiStable[phi] = true
+					ip.loopChanged = true
+				} else if !now {
+					delete(ip.phiStable, phi)
+					ip.loopChanged = true
+				}
+			}
+		}
 		if !ip.loopChanged {
+			ip.loopPre, ip.phiPre = nil, nil
 			return res, out
 		}
 	}
+	ip.loopPre, ip.phiPre = nil, nil
 	ip.Imprecise("loop-written cells did not stabilise in " + fn.String())
 	return nil, nil
+}
+
+// noteLatch compares, at a back edge, the loop-written cells with their values from
+// before the loop.
+func (ip *Interp) noteLatch(act *activation, header, from *ssa.BasicBlock, s *State) {
+	if ip.loopPre == nil {
+		return
+	}
+	// loop-carried SSA values: the value arriving over this back edge against the one
+	// that entered the loop
+	if idx := predIndex(header, from); idx >= 0 {
+		for _, instr := range header.Instrs {
+			phi, ok := instr.(*ssa.Phi)
+			if !ok {
+				break
+			}
+			pk, had := ip.phiPre[phi]
+			if !had || ValKey(ip.get(act, s, phi.Edges[idx])) != pk {
+				ip.phiDiff[phi] = true
+			}
+		}
+	}
+	pre := ip.loopPre[header]
+	d := ip.loopDiff[header]
+	if d == nil {
+		d = map[string]bool{}
+		ip.loopDiff[header] = d
+	}
+	for k := range ip.loopWritten[header] {
+		v, ok := s.Heap.get(k)
+		pk, had := pre[k]
+		if !ok || !had || ValKey(v) != pk || strings.Contains(pk, "loopcell:") {
+			d[k] = true
+		}
+	}
 }
 
 // IsAcyclic reports whether fn can be interpreted by this engine.
@@ -457,6 +571,7 @@ func (ip *Interp) Call(fn *ssa.Function, args []Val, bind []Val, st *State) (res
 	act := &activation{fn: fn, env: map[ssa.Value]Val{}, loads: map[ssa.Value]loadOrigin{}}
 	// the branch outcomes in force at the call site stay in force in the callee
 	act.outer = ip.PathGuards(st)
+	act.outerL = ip.PathGuardList(st)
 	ip.acts = append(ip.acts, act)
 	defer func() {
 		ip.stack = ip.stack[:len(ip.stack)-1]
@@ -548,9 +663,31 @@ func (ip *Interp) Call(fn *ssa.Function, args []Val, bind []Val, st *State) (res
 					break
 				}
 				ip.fresh++
+				if ip.phiPre != nil {
+					// the value entering the loop (merged over the forward edges above)
+					if init, ok := act.env[phi]; ok && init != nil {
+						ip.phiPre[phi] = ValKey(init)
+						ip.phiSeen[phi] = true
+						if ip.phiStable[phi] {
+							continue // invariant: keeps the value it entered with
+						}
+					}
+				}
 				act.env[phi] = ip.havocVal(fmt.Sprintf("loopvar:%s.%s.%s", fn.Name(), phi.Name(), phi.Comment), phi.Type())
 			}
+			if ip.loopPre != nil {
+				pre := map[string]string{}
+				for k := range ip.loopWritten[b] {
+					if v, ok := cur.Heap.get(k); ok {
+						pre[k] = ValKey(v)
+					}
+				}
+				ip.loopPre[b] = pre
+			}
 			for k := range ip.loopWritten[b] {
+				if ip.loopStable[b][k] {
+					continue // invariant: keeps its value from before the loop
+				}
 				if li, ok := ip.locs[k]; ok {
 					cur.Heap.set(k, ip.havocVal("loopcell:"+li.obj.Name+PathKey(li.path), li.t))
 				}
@@ -562,6 +699,7 @@ func (ip *Interp) Call(fn *ssa.Function, args []Val, bind []Val, st *State) (res
 				continue
 			}
 			ip.steps++
+			ip.curSt = cur
 			if p := instr.Pos(); p.IsValid() {
 				ip.curPos = p
 			}
@@ -584,6 +722,8 @@ func (ip *Interp) Call(fn *ssa.Function, args []Val, bind []Val, st *State) (res
 					}
 					if !(loopBodies != nil && b.Succs[0].Dominates(b)) {
 						ins[b.Succs[0]] = append(ins[b.Succs[0]], edgeIn{b, s})
+					} else {
+						ip.noteLatch(act, b.Succs[0], b, s)
 					}
 				}
 				if k != TriT {
@@ -594,12 +734,16 @@ func (ip *Interp) Call(fn *ssa.Function, args []Val, bind []Val, st *State) (res
 					}
 					if !(loopBodies != nil && b.Succs[1].Dominates(b)) {
 						ins[b.Succs[1]] = append(ins[b.Succs[1]], edgeIn{b, s})
+					} else {
+						ip.noteLatch(act, b.Succs[1], b, s)
 					}
 				}
 				live = false
 			case *ssa.Jump:
 				if !(loopBodies != nil && b.Succs[0].Dominates(b)) {
 					ins[b.Succs[0]] = append(ins[b.Succs[0]], edgeIn{b, cur})
+				} else {
+					ip.noteLatch(act, b.Succs[0], b, cur)
 				}
 				live = false
 			case *ssa.Return:
@@ -668,6 +812,7 @@ func (ip *Interp) callPath(fn *ssa.Function, args []Val, bind []Val, st *State) 
 	act := &activation{fn: fn, env: map[ssa.Value]Val{}, loads: map[ssa.Value]loadOrigin{}}
 	// the branch outcomes in force at the call site stay in force in the callee
 	act.outer = ip.PathGuards(st)
+	act.outerL = ip.PathGuardList(st)
 	ip.acts = append(ip.acts, act)
 	defer func() {
 		ip.stack = ip.stack[:len(ip.stack)-1]
@@ -720,6 +865,7 @@ func (ip *Interp) callPath(fn *ssa.Function, args []Val, bind []Val, st *State) 
 				continue
 			}
 			ip.steps++
+			ip.curSt = nil
 			if ip.steps > limit {
 				ip.Imprecise("path step limit exceeded in " + fn.String())
 				return ip.topOf(fn.Signature.Results(), "loop"), st
@@ -969,6 +1115,29 @@ func (ip *Interp) refineEdge(act *activation, s *State, cond ssa.Value, cb *Bool
 		s.refine[cond] = &Bool{K: TriT}
 	} else {
 		s.refine[cond] = &Bool{K: TriF}
+	}
+	if cb != nil && cb.NilOf != nil {
+		if v, ok := cb.NilOf.(ssa.Value); ok {
+			if _, isConst := v.(*ssa.Const); !isConst {
+				curV := ip.get(act, s, v)
+				var nv Val
+				if outcome == cb.NilSense {
+					nv = &Top{T: v.Type(), Key: "nil"}
+				} else if t, isTop := curV.(*Top); isTop && !t.NonNil {
+					c := *t
+					c.NonNil, c.NilIf = true, nil
+					nv = &c
+				}
+				if nv != nil {
+					s.refine[v] = nv
+					if lo, ok := act.loads[v]; ok {
+						if cur, ok := s.Heap.get(lo.key); ok && cur == lo.v {
+							s.Heap.set(lo.key, nv)
+						}
+					}
+				}
+			}
+		}
 	}
 	if cb == nil || cb.Cmp == nil {
 		return
@@ -1436,6 +1605,7 @@ func (ip *Interp) compare(op string, x, y Val, xs, ys ssa.Value) Val {
 				r := *a
 				if neg {
 					r.Neg = !r.Neg
+					r.NilSense = !r.NilSense
 					r.K = a.K
 				}
 				return &r
@@ -1453,6 +1623,23 @@ func (ip *Interp) compare(op string, x, y Val, xs, ys ssa.Value) Val {
 	}
 	// nil comparisons
 	if op == "==" || op == "!=" {
+		// a value that is nil exactly under a named condition: the test is that condition
+		for _, pr := range [][2]interface{}{{x, ys}, {y, xs}} {
+			if t, ok := pr[0].(*Top); ok && t.NilIf != nil && isNilConst(pr[1].(ssa.Value)) {
+				r := *t.NilIf
+				r.K = TriTop
+				if op == "!=" {
+					r.Neg = !r.Neg
+				}
+				if pr[1] == interface{}(ys) {
+					r.NilOf = xs
+				} else {
+					r.NilOf = ys
+				}
+				r.NilSense = op == "=="
+				return &r
+			}
+		}
 		nx, ny := ip.nilness(x), ip.nilness(y)
 		if isNilConst(ys) && nx != TriTop {
 			return triBool((nx == TriT) == (op == "=="))
@@ -1471,6 +1658,13 @@ func (ip *Interp) compare(op string, x, y Val, xs, ys ssa.Value) Val {
 					return triBool(op != "==")
 				}
 			}
+		}
+		// an undecided nil test still tells the edges what the value is
+		if isNilConst(ys) && !isNilConst(xs) {
+			return &Bool{K: TriTop, NilOf: xs, NilSense: op == "=="}
+		}
+		if isNilConst(xs) && !isNilConst(ys) {
+			return &Bool{K: TriTop, NilOf: ys, NilSense: op == "=="}
 		}
 	}
 	return &Bool{K: TriTop}
@@ -1507,6 +1701,9 @@ func (ip *Interp) nilness(v Val) Tri {
 		if x.Key == "nil" {
 			return TriT
 		}
+		if x.NonNil {
+			return TriF
+		}
 	}
 	return TriTop
 }
@@ -1538,6 +1735,7 @@ func (ip *Interp) unop(act *activation, st *State, t *ssa.UnOp) Val {
 				r.K = TriT
 			default:
 				r.Neg = !b.Neg
+				r.NilSense = !b.NilSense
 			}
 			return &r
 		}
@@ -1799,7 +1997,13 @@ func (ip *Interp) callFunc(st *State, site ssa.CallInstruction, fn *ssa.Function
 		res := top("ext:" + name)
 		ev.Result = res
 		return res, true
-	case "fmt.Sprintf", "fmt.Sprint", "fmt.Sprintln", "fmt.Errorf", "errors.New",
+	case "fmt.Errorf", "errors.New":
+		// a freshly made error is never nil
+		ip.fresh++
+		res := Val(&Top{T: fn.Signature.Results().At(0).Type(), Key: fmt.Sprintf("ext:%s#%d", name, ip.fresh), NonNil: true})
+		ev.Result = res
+		return res, true
+	case "fmt.Sprintf", "fmt.Sprint", "fmt.Sprintln",
 		"log.Println", "log.Printf", "log.Print", "strconv.Itoa", "strconv.FormatInt", "strconv.FormatUint":
 		res := top("ext:" + name)
 		ev.Result = res
@@ -1808,6 +2012,53 @@ func (ip *Interp) callFunc(st *State, site ssa.CallInstruction, fn *ssa.Function
 		res := top("ext:" + name)
 		ev.Result = res
 		return res, true
+	}
+	// encoding/binary byte orders over a slice with a constant offset
+	if strings.HasPrefix(name, "(encoding/binary.littleEndian).") || strings.HasPrefix(name, "(encoding/binary.bigEndian).") {
+		little := strings.Contains(name, "littleEndian")
+		meth := name[strings.LastIndex(name, ".")+1:]
+		nbytes := map[string]int{"PutUint16": 2, "PutUint32": 4, "PutUint64": 8, "Uint16": 2, "Uint32": 4, "Uint64": 8}[meth]
+		if nbytes > 0 && len(args) >= 2 {
+			if sl, ok := args[1].(*Slice); ok && sl.Base.Obj != nil && sl.Off != nil && sl.Len != nil && sl.Len.Lo >= uint64(nbytes) {
+				if off, isC := sl.Off.IsConst(); isC {
+					elem := func(i int) *Ptr {
+						return &Ptr{Obj: sl.Base.Obj, Path: appendSel(sl.Base.Path, Sel{Field: -1, Index: int(off) + i}), T: sl.ElemT}
+					}
+					pos := func(i int) int { // significance (in bytes) of the byte stored at position i
+						if little {
+							return i
+						}
+						return nbytes - 1 - i
+					}
+					if strings.HasPrefix(meth, "Put") && len(args) == 3 {
+						if v, ok := args[2].(*Int); ok {
+							for i := 0; i < nbytes; i++ {
+								b := ip.Ops.Convert(ip.Ops.Shr(v, NewConst(v.W, uint64(8*pos(i)), false), false), 8, false, false)
+								ip.Store(st, elem(i), sl.ElemT, b)
+							}
+							ev.Result = nil
+							return nil, true
+						}
+					} else if !strings.HasPrefix(meth, "Put") {
+						w := 8 * nbytes
+						r := NewConst(w, 0, false)
+						good := true
+						for i := 0; i < nbytes; i++ {
+							b, ok := ip.Load(st, elem(i), sl.ElemT).(*Int)
+							if !ok {
+								good = false
+								break
+							}
+							r = ip.Ops.Or(r, ip.Ops.Shl(ip.Ops.Convert(b, w, false, false), NewConst(w, uint64(8*pos(i)), false)))
+						}
+						if good {
+							ev.Result = r
+							return r, true
+						}
+					}
+				}
+			}
+		}
 	}
 	ip.Imprecise("call to unmodelled external function " + name)
 	res := top("ext:" + name)
